@@ -78,7 +78,7 @@ def run(tier):
     rng = random.Random(vlib.seed())
     quick = tier == "quick"
     scen = []
-    n = 3000 if quick else 40000
+    n = 3000 if quick else 100000
     for name, flags, positions, kinds, share in PROFILES:
         g = Gen(rng, **flags)
         for i in range(int(n * share)):
